@@ -438,7 +438,7 @@ def c14():
     return {
         "props_file": "Props/C14.v",
         "theorems": ["C14_rerun_equals_fresh", "C14_rerun_frame", "C14_globs_are_purged", "C14_cleanup",
-                     "C14_no_partial_final", "C14_run_is_writes", "C14_failed_run_no_final",
+                     "C14_no_partial_final", "C14_run_is_writes", "C14_failed_run_no_final", "C14_failed_run_no_final_any_subset",
                      "C14_nonvacuous", "C14_instance_not_trivial", "C14_source_tie_purge",
                      "C14_source_tie_cleanup", "C14_source_tie_publish", "C14_source_tie_publish_names"],
         "model_files": ["Model/Multiround.v", "Gen/GMr.v", "Proofs/GenTieMr.v", "Gen/GMrDel.v", "Proofs/GenTieMrDel.v"],
